@@ -145,7 +145,7 @@ pub fn run_probes<L: SimLang, N: Analysis<L>>(s: &mut Sess<L, N>, kind: i64, see
     if n == 0 {
         return;
     }
-    match kind.rem_euclid(8) {
+    match kind.rem_euclid(9) {
         0 => {
             for i in 0..n {
                 let h = s.tracked[i].h.clone();
@@ -195,9 +195,20 @@ pub fn run_probes<L: SimLang, N: Analysis<L>>(s: &mut Sess<L, N>, kind: i64, see
                 s.log(&format!("alive {a}"));
             }
         }
-        _ => {
+        7 => {
             let t = s.eg.total_number_of_nodes();
             s.log(&format!("nodes {t}"));
+        }
+        _ => {
+            // extraction is a reader too (C08: "rewriting and extraction complete without panicking")
+            let ex = Extractor::<L, AstSize>::new(&s.eg, AstSize);
+            for i in 0..n.min(4) {
+                let h = s.tracked[rng.below(n)].h.clone();
+                let _ = i;
+                // every class of a history was created from an inserted (finite) term
+                let re = ex.extract(&h, &s.eg);
+                s.log(&format!("extract {re:?}"));
+            }
         }
     }
 }
@@ -604,7 +615,7 @@ pub fn gen_history(rng: &mut Rng, p: &GenParams, with_probes: bool) -> Vec<Op> {
                 if tg.rng.chance(1, 5) {
                     ops.push(Op::new("reseed").i((tg.rng.next() >> 1) as i64 | 1));
                 } else {
-                    let k = tg.rng.below(8) as i64;
+                    let k = tg.rng.below(9) as i64;
                     let sd = (tg.rng.next() % 1_000_000) as i64;
                     ops.push(Op::new("probe").i(k).i(sd));
                 }
@@ -683,9 +694,16 @@ pub fn exec_sess_op<L: SimLang, N: Analysis<L>>(s: &mut Sess<L, N>, op: &Op, run
     }
 }
 
+/// Runs a piece of work that calls into the library, with fuel and work budget. A panic that
+/// originates in the simulator's own code is a harness error and is re-raised (exit 2).
 pub fn catch_op<R>(f: impl FnOnce() -> R) -> Result<R, PanicInfo> {
     crate::exec::seam::refuel(crate::exec::fuel_per_op());
     let r = catch(f);
     crate::exec::seam::unlimited_fuel();
+    if let Err(p) = &r {
+        if p.is_harness() {
+            panic!("harness panic: {} at {}", p.msg, p.loc);
+        }
+    }
     r
 }
